@@ -3,6 +3,8 @@ DQ = ['wsd_work_stealing_deque_push_bottom', 'wsd_work_stealing_deque_pop_bottom
 GROUPS = [
     dict(name='schedule', tu='sched.c', harness='h_schedule', mode='D', enforce='fiber_scheduler_schedule', replace=DQ, functions=['fiber_scheduler_schedule'], no_native='callee contracts only in DFCC form'),
     dict(name='next', tu='sched.c', harness='h_next', mode='D', enforce='fiber_scheduler_next', replace=DQ, functions=['fiber_scheduler_next'], no_native='callee contracts only in DFCC form'),
+    dict(name='init', tu='sched.c', harness='h_init', mode='H', functions=['fiber_scheduler_wsd_init'], unwind=2, exact_unwind=True),
+    dict(name='init_all', tu='sched.c', harness='h_init_all', mode='H', functions=['fiber_scheduler_init', 'fiber_scheduler_wsd_init', 'fiber_scheduler_for_thread'], unwind=3, exact_unwind=True, cbmc_flags=['--no-malloc-may-fail']),
 ]
 ASSUMPTIONS = ['deque operations by the owner-side contracts enforced under C02; thieves only take from the top',
                'the scheduler object is used only by its own kernel thread (C01 ownership)']
